@@ -80,6 +80,9 @@ func driveConvert(s *shardSet, rng *rand.Rand, thorough bool) ([]string, map[str
 							w := s.Next()
 							w.Reset()
 							src := w.spreadSource(sty, ch, rel[0]+1)
+							if n := w.Views[src].Len(); n > 0 && rng.Intn(2) == 0 {
+								w.SetSample(src, rng.Intn(n), 0) // a zero sample: a skipped write must show
+							}
 							if kindClass(sty) == "Float" && f.Name == "FloatAsFloat" {
 								n := w.Views[src].Len()
 								vals := make([]float64, n)
